@@ -782,6 +782,7 @@ class Gen(object):
             # the subject would only be needed lazily (FINDINGS.md F1): match on something that cannot abort
             if self.allow_hazard:
                 self.feat("hazard:lazy_when_subject")
+                self.feat("known:call-by-need")
             else:
                 vs = sc.of_type(subj.ty)
                 if vs:
@@ -804,6 +805,7 @@ class Gen(object):
             return body
         if self.allow_hazard:
             self.feat("hazard:lazy_let")
+            self.feat("known:call-by-need")
             return body
         return None
 
